@@ -304,7 +304,10 @@ def gen_case(rng, focus):
         ops.append(a)
     terminal = ops[-1]['op'] in TERMINAL_OPS
     k = 1 if terminal else rng.randrange(0, 7)
-    return dict(base=base, delta=delta, dict=as_dict, k=k, ops=ops, terminal=terminal)
+    # how the source reaches the expression: as the document itself, nested in the document (input conversion walks
+    # containers), or as an argument of a YaqlInterface call
+    place = rng.choice(['root', 'root', 'root', 'dict', 'list', 'deep', 'iface'])
+    return dict(base=base, delta=delta, dict=as_dict, k=k, ops=ops, terminal=terminal, place=place)
 
 
 # ------------------------------------------------------------------ secondary lazy collection arguments
@@ -482,6 +485,13 @@ def setup_engine():
     return _STATE['eng'], _STATE['ctx'], _STATE['counter']
 
 
+PLACE_ROOT = {'root': '$', 'dict': '$.src', 'list': '$[0]', 'deep': '$.a[1].b', 'iface': '$1'}
+
+
+def place_data(place, src):
+    return {'root': src, 'dict': {'src': src, 'n': 1}, 'list': [src, 1], 'deep': {'a': [0, {'b': src}]}}[place]
+
+
 def case_text(case):
     seqref.WRAP = 'tick() and (%s)'
     try:
@@ -490,7 +500,7 @@ def case_text(case):
             for a in case['post']:
                 t = seqref.render_op(t, a)
         else:
-            t = seqref.render(case['ops'])
+            t = seqref.render(case['ops'], root=PLACE_ROOT[case.get('place') or 'root'])
     finally:
         seqref.WRAP = '%s'
     return t if case['terminal'] else '%s.take(%d)' % (t, case['k'])
@@ -510,7 +520,14 @@ def run_real_once(case, timeout=4):
         signal.signal(signal.SIGALRM, c13._alarm)
         signal.setitimer(signal.ITIMER_REAL, timeout)
         try:
-            r = st.evaluate(data=srcobj, context=child) if not case.get('sec') else st.evaluate(context=child)
+            place = case.get('place') or 'root'
+            if case.get('sec'):
+                r = st.evaluate(context=child)
+            elif place == 'iface':
+                from yaql import yaql_interface
+                r = yaql_interface.YaqlInterface(child, eng)(text, srcobj)
+            else:
+                r = st.evaluate(data=place_data(place, srcobj), context=child)
         finally:
             signal.setitimer(signal.ITIMER_REAL, 0)
         return dict(kind='ok', value=r, pulls=srcobj.pulls, apps=counter[0], text=text)
